@@ -13,7 +13,7 @@ CONSTANTS
   Isa = "x64"
   WithScopes = FALSE
   AlignOpts = {0}
-  InsFns = {"none", "ret", "loop"}
+  InsFns = {"none", "ret", "callret"}
   Emit = TRUE
 INVARIANT Inv
 CHECK_DEADLOCK FALSE
